@@ -176,6 +176,12 @@ fn worker(cfg: Arc<Config>, judge: Arc<dyn Judge>, shared: Arc<Shared>, opts_dea
         {
             if shared.active.load(Ordering::SeqCst) == 0 && shared.queued.load(Ordering::SeqCst) == 0 { break; }
             if shared.stop.load(Ordering::SeqCst) { break; }
+            if std::env::var("VERIF_TRACE_IDLE").is_ok()
+            {
+                eprintln!("idle: active={} queued={} stop={} qlen={}", shared.active.load(Ordering::SeqCst),
+                    shared.queued.load(Ordering::SeqCst), shared.stop.load(Ordering::SeqCst), shared.queue.lock().unwrap().len());
+                std::thread::sleep(Duration::from_millis(500));
+            }
             std::thread::sleep(Duration::from_micros(200));
             continue;
         };
@@ -187,7 +193,19 @@ fn worker(cfg: Arc<Config>, judge: Arc<dyn Judge>, shared: Arc<Shared>, opts_dea
         loop
         {
             if shared.stop.load(Ordering::Relaxed) { stats.capped = true; break; }
-            let ex = execute(&cfg, path.clone());
+            if std::env::var("VERIF_TRACE_PATHS").is_ok() { eprintln!("PATH {:?}", path); }
+            let ex = match std::panic::catch_unwind(std::panic::AssertUnwindSafe(|| execute(&cfg, path.clone())))
+            {
+                Ok(ex) => ex,
+                Err(e) =>
+                {
+                    let msg = if let Some(s) = e.downcast_ref::<&str>() { s.to_string() }
+                        else if let Some(s) = e.downcast_ref::<String>() { s.clone() } else { "?".into() };
+                    stats.machinery_errors.push(format!("executor panicked on {:?} of {}: {}", path, cfg.name, msg));
+                    shared.stop.store(true, Ordering::SeqCst);
+                    break;
+                }
+            };
             let n = shared.executions.fetch_add(1, Ordering::Relaxed) as u64 + 1;
             // replay integrity
             if ex.record.len() < path.len()
@@ -202,7 +220,17 @@ fn worker(cfg: Arc<Config>, judge: Arc<dyn Judge>, shared: Arc<Shared>, opts_dea
                     stats.machinery_errors.push(format!("replay diverged at {i}: {:?}", path));
                 }
             }
-            record_execution(&cfg, judge.as_ref(), &ex, &mut stats);
+            {
+                // a panic in the judge is a machinery error, never a verdict
+                let r = std::panic::catch_unwind(std::panic::AssertUnwindSafe(|| {
+                    record_execution(&cfg, judge.as_ref(), &ex, &mut stats);
+                }));
+                if r.is_err()
+                {
+                    stats.machinery_errors.push(format!("judge panicked on choices {:?} of {}",
+                        ex.record.iter().map(|(c, _)| *c).collect::<Vec<_>>(), cfg.name));
+                }
+            }
             if !stats.machinery_errors.is_empty() { shared.stop.store(true, Ordering::SeqCst); break; }
             if (max_exec > 0 && n >= max_exec) || opts_deadline.map(|d| (n % 64 == 0) && Instant::now() > d).unwrap_or(false)
             {
@@ -274,7 +302,20 @@ pub fn explore(cfg: Arc<Config>, judge: Arc<dyn Judge>, opts: &ExploreOpts) -> S
         let max_exec = opts.max_executions;
         let threads = opts.threads.max(1);
         handles.push(std::thread::Builder::new().stack_size(16 << 20).spawn(move || {
-            worker(cfg, judge, shared, deadline, max_exec, threads)
+            let shared2 = shared.clone();
+            match std::panic::catch_unwind(std::panic::AssertUnwindSafe(move || worker(cfg, judge, shared, deadline, max_exec, threads)))
+            {
+                Ok(s) => s,
+                Err(e) =>
+                {
+                    let msg = if let Some(s) = e.downcast_ref::<&str>() { s.to_string() }
+                        else if let Some(s) = e.downcast_ref::<String>() { s.clone() } else { "?".into() };
+                    shared2.stop.store(true, Ordering::SeqCst);
+                    let mut st = Stats::default();
+                    st.machinery_errors.push(format!("explorer worker panicked: {msg}"));
+                    st
+                }
+            }
         }).unwrap());
     }
     let mut total = Stats::default();
